@@ -9,7 +9,11 @@
    operation of a session under configuration [c] (validate_while_typing,
    accept handler's keep_text, validator = ANY function text -> cursor ->
    option position), [steps] a finite sequence of them.
-   [Inv s] is 0 <= wi < len wl.  Operation classes:
+   [Inv s] is 0 <= wi < len wl.  [thr (th s) = false]: the History object is an
+   InMemoryHistory/FileHistory (everything is loaded by the first population
+   step); [= true]: a ThreadedHistory, whose entries arrive from a loader
+   thread while the session runs (second half of this file).  The kind never
+   changes (C14_history_kind).  Operation classes:
    is_nav  = history_backward/forward n, go_to_history, auto_up/auto_down n,
              end-of-history, cursor moves, validate, the landing of an
              incremental search (apply_search: index and cursor);
@@ -17,7 +21,8 @@
    is_pop  = one / all remaining asynchronous population steps. *)
 From Coq Require Import ZArith List Bool.
 From PTK Require Import Lib.Sx Lib.Py Model.Document Model.BufferEdit Model.C14_HistoryNav
-  Proofs.C14_Facts Proofs.C14_Nav Proofs.C14_Accept Proofs.C14_Mixed Proofs.C14_Sessions.
+  Proofs.C14_Facts Proofs.C14_Nav Proofs.C14_Accept Proofs.C14_Mixed Proofs.C14_Sessions
+  Proofs.C14_Threaded.
 Import ListNotations.
 Open Scope Z_scope.
 
@@ -26,16 +31,17 @@ Open Scope Z_scope.
    cursor, search text and validation state move.  Lifted to every finite
    sequence: edits made to recalled entries are kept while browsing. *)
 Theorem C14_browse_pure : forall c ops s,
-  Forall is_nav ops ->
+  thr (th s) = false -> Forall is_nav ops ->
   wl (steps c s ops) = wl s /\ store (steps c s ops) = store s /\
-  task (steps c s ops) = task s /\ tfin (steps c s ops) = tfin s /\ ehs (steps c s ops) = ehs s.
+  task (steps c s ops) = task s /\ tfin (steps c s ops) = tfin s /\ ehs (steps c s ops) = ehs s /\
+  th (steps c s ops) = th s.
 Proof. exact nav_steps_frame. Qed.
 Print Assumptions C14_browse_pure.
 
 (* An edit changes the working lines only at the working index, and nothing
    of the History object. *)
 Theorem C14_edits_kept : forall c s o,
-  Inv s -> is_edit o ->
+  thr (th s) = false -> Inv s -> is_edit o ->
   let s' := step_state c s o in
   store s' = store s /\ task s' = task s /\ tfin s' = tfin s /\ wi s' = wi s /\
   length (wl s') = length (wl s) /\
@@ -52,7 +58,7 @@ Print Assumptions C14_edits_kept.
    unchanged: edits to recalled entries are kept while browsing and while the
    history is still loading, and nothing else ever changes an entry. *)
 Theorem C14_edits_kept_mixed : forall c ops s,
-  Inv s -> Forall wf_op ops -> Forall browse_op ops ->
+  thr (th s) = false -> Inv s -> Forall wf_op ops -> Forall browse_op ops ->
   (length (wl s) <= length (wl (steps c s ops)))%nat /\
   sto (store (steps c s ops)) = sto (store s) /\
   forall r, (r < length (wl s))%nat -> ~ In r (touched c s ops) ->
@@ -70,7 +76,7 @@ Print Assumptions C14_index_inv.
 (* Without prefix search, k entries back and k forward again (0 <= k not
    exceeding the entries available): same entry, same text, same lines. *)
 Theorem C14_back_forth : forall c s k,
-  Inv s -> ehs s = false -> 0 <= k <= wi s ->
+  thr (th s) = false -> Inv s -> ehs s = false -> 0 <= k <= wi s ->
   let s1 := step_state c s (OBack k) in
   let s2 := step_state c s1 (OFwd k) in
   wi s1 = wi s - k /\ wi s2 = wi s /\ wl s2 = wl s /\ text s2 = text s.
@@ -96,7 +102,7 @@ Print Assumptions C14_selection_no_browse.
    starts with the prefix, which is the captured search text or, at the first
    step, the text before the cursor. *)
 Theorem C14_prefix : forall c s o,
-  ehs s = true -> is_hist_step o ->
+  thr (th s) = false -> ehs s = true -> is_hist_step o ->
   wi (step_state c s o) = wi s \/
   startswith (text (step_state c s o))
              (match hst s with Some q => q | None => text_before_cursor (sdoc s) end) = true.
@@ -106,7 +112,7 @@ Print Assumptions C14_prefix.
 (* The captured prefix survives every navigation operation (it is only reset
    by an edit, by reset, or by switching the search off). *)
 Theorem C14_prefix_persists : forall c s o p,
-  is_nav o -> ehs s = true -> hst s = Some p -> hst (step_state c s o) = Some p.
+  thr (th s) = false -> is_nav o -> ehs s = true -> hst s = Some p -> hst (step_state c s o) = Some p.
 Proof. exact nav_hst_stable. Qed.
 Print Assumptions C14_prefix_persists.
 
@@ -115,7 +121,8 @@ Print Assumptions C14_prefix_persists.
 Theorem C14_accept_invalid_fresh : forall c s V p,
   vst s = V_UNKNOWN -> val c = Some V -> V (text s) (cur s) = Some p ->
   exists s', validate_and_handle c s = (s', None) /\
-    (wl s' = wl s /\ store s' = store s /\ task s' = task s /\ tfin s' = tfin s /\ ehs s' = ehs s) /\
+    (wl s' = wl s /\ store s' = store s /\ task s' = task s /\ tfin s' = tfin s /\ ehs s' = ehs s /\
+     th s' = th s) /\
     wi s' = wi s /\ hst s' = hst s /\
     cur s' = Z.min (Z.max 0 p) (len (text s)) /\ vst s' = V_INVALID.
 Proof. exact accept_invalid_fresh. Qed.
@@ -145,14 +152,14 @@ Print Assumptions C14_accept_valid.
    It holds in every reachable state. *)
 Theorem C14_coherent : forall c ops storage e,
   Coh (store (steps c (init storage e) ops)).
-Proof. intros. apply steps_coh. apply coh_init. Qed.
+Proof. intros. apply steps_coh; [reflexivity | apply coh_init]. Qed.
 Print Assumptions C14_coherent.
 
 (* append_to_history appends the text exactly once to the stored history (and
    get_strings() shows exactly the stored history afterwards) unless
    [stored_skip] ... *)
 Theorem C14_append_once : forall s,
-  Coh (store s) ->
+  thr (th s) = false -> Coh (store s) ->
   let S := sto (store s) in
   let h' := store (append_to_history s) in
   sto h' = (if stored_skip S (text s) then S else S ++ [text s]) /\ get_strings h' = sto h'.
@@ -169,7 +176,7 @@ Print Assumptions C14_append_skip.
 (* Accepting input that passes: the text is returned and the stored history
    gains it exactly once unless it is empty or equal to the newest entry. *)
 Theorem C14_accept_history : forall c s,
-  Coh (store s) -> verdict_ok c s ->
+  thr (th s) = false -> Coh (store s) -> verdict_ok c s ->
   let r := validate_and_handle c s in
   snd r = Some (text s) /\
   sto (store (fst r)) =
@@ -191,7 +198,7 @@ Print Assumptions C14_append_dedupe_unloaded_pinned_refuted.
    the entries are the stored history followed by the new line, the new line
    is displayed with the requested cursor. *)
 Theorem C14_reset_clean : forall s t cp,
-  Coh (store s) ->
+  thr (th s) = false -> Coh (store s) ->
   let s' := pop_all (load_start (reset s t cp false)) in
   wl s' = sto (store s) ++ [t] /\ wi s' = len (sto (store s)) /\ text s' = t /\ cur s' = cp /\
   sto (store s') = sto (store s) /\ hst s' = None /\ vst s' = V_UNKNOWN.
@@ -201,7 +208,7 @@ Print Assumptions C14_reset_clean.
 (* The same when the population steps are interleaved in any way with any
    navigation operations. *)
 Theorem C14_reset_clean_interleaved : forall c s t cp ops,
-  Coh (store s) -> Forall (fun o => is_nav o \/ is_pop o) ops ->
+  thr (th s) = false -> Coh (store s) -> Forall (fun o => is_nav o \/ is_pop o) ops ->
   let s' := steps c (load_start (reset s t cp false)) ops in
   tfin s' = true -> wl s' = sto (store s) ++ [t].
 Proof. exact reset_clean_interleaved. Qed.
@@ -210,7 +217,7 @@ Print Assumptions C14_reset_clean_interleaved.
 (* A new session on the same storage (new History object: nothing loaded yet)
    starts from the stored history followed by an empty line. *)
 Theorem C14_new_session_clean : forall s,
-  Coh (store s) ->
+  thr (th s) = false -> Coh (store s) ->
   let s' := pop_all (load_start (reopen s)) in
   wl s' = sto (store s) ++ [[]] /\ wi s' = len (sto (store s)) /\ text s' = [] /\
   sto (store s') = sto (store s) /\ hst s' = None.
@@ -221,7 +228,7 @@ Print Assumptions C14_new_session_clean.
    are the old stored history, the accepted text, the new line; one step back
    displays exactly the accepted text. *)
 Theorem C14_recall_next_session : forall c s,
-  Coh (store s) -> verdict_ok c s -> stored_skip (sto (store s)) (text s) = false ->
+  thr (th s) = false -> Coh (store s) -> verdict_ok c s -> stored_skip (sto (store s)) (text s) = false ->
   let s1 := fst (validate_and_handle c s) in
   let s2 := pop_all (load_start (reopen s1)) in
   ehs s = false ->
@@ -246,6 +253,59 @@ Theorem C14_population_prepends : forall s,
   exists new, wl (pop_step s) = new ++ wl s.
 Proof. exact pop_step_shift. Qed.
 Print Assumptions C14_population_prepends.
+
+(* ---------------------------------------------------------------------- *)
+(* ThreadedHistory *)
+
+(* the kind of the History object never changes *)
+Theorem C14_history_kind : forall c ops s, thr (th (steps c s ops)) = thr (th s).
+Proof. exact steps_thr. Qed.
+Print Assumptions C14_history_kind.
+
+(* [CohT]: the loaded strings followed by what the loader thread still has to
+   read are the stored history, newest first (before the thread runs: the
+   loaded strings are what this session appended).  It holds in every
+   reachable state, whatever the interleaving of thread steps, appends,
+   accepts, resets and new load() calls. *)
+Theorem C14_threaded_coherent : forall c ops storage e,
+  CohT (steps c (init_k storage e true) ops).
+Proof. intros. apply steps_cohT, cohT_init. Qed.
+Print Assumptions C14_threaded_coherent.
+
+(* append over a ThreadedHistory: as soon as anything is loaded, the text is
+   appended to the stored history exactly once unless it is empty or equals
+   the newest STORED entry (the thread delivers the newest entry first; an
+   append puts the newest in front). *)
+Theorem C14_append_once_threaded : forall s,
+  CohT s -> tstarted (th s) = true -> ls (store s) <> [] ->
+  let S := sto (store s) in
+  sto (store (append_to_history s)) = if stored_skip S (text s) then S else S ++ [text s].
+Proof. exact thr_append_once. Qed.
+Print Assumptions C14_append_once_threaded.
+
+(* ... in general it is compared with the newest LOADED string ... *)
+Theorem C14_append_skip_threaded : forall s,
+  thr (th s) = true -> text s <> [] ->
+  let t := text s in let h := store s in
+  store (append_to_history s) = if skip_append h t then h else append_string h t.
+Proof. exact thr_append_store. Qed.
+Print Assumptions C14_append_skip_threaded.
+
+(* ... so while nothing is loaded yet the newest stored entry is stored again
+   (finding C14-F3: the C14-F1 fix is a no-op for ThreadedHistory). *)
+Theorem C14_append_threaded_nothing_loaded_refuted :
+  exists s, CohT s /\ Inv s /\ ls (store s) = [] /\ sto (store s) = [text s] /\ text s <> [] /\
+    sto (store (append_to_history s)) = [text s; text s].
+Proof. exact thr_nothing_loaded_refuted. Qed.
+Print Assumptions C14_append_threaded_nothing_loaded_refuted.
+
+(* Entries delivered by the thread (at the end of any operation) never change
+   what is displayed; they are prepended and the index shifts by as many. *)
+Theorem C14_threaded_population_safe : forall s,
+  Inv s -> text (consume s) = text s /\ cur (consume s) = cur s /\ hst (consume s) = hst s /\
+           exists new, wl (consume s) = new ++ wl s /\ wi (consume s) = wi s + len new.
+Proof. exact consume_displayed. Qed.
+Print Assumptions C14_threaded_population_safe.
 
 (* Non-vacuity: the hypotheses are met by reachable, non-trivial states. *)
 Example C14_hypotheses_satisfiable :
